@@ -17,6 +17,8 @@ def main():
     seed = int(os.environ.get("VERIF_SEED", "0") or 0)
     prop = a.prop.upper()
     mod = importlib.import_module(f"harness.props.{prop.lower()}")
+    if a.replay:
+        a.replay = os.path.abspath(a.replay)     # cwd changes below
     run = core.Run(prop, a.tier, seed)
     scratch = core.scratch_dir("sv_cwd_")
     os.chdir(scratch)          # repo code writes into cwd by default; never dirty /repo or /verif
